@@ -35,7 +35,14 @@ func c11Oracle(sp *Spec, x *X, res *mcrt.Result) (string, string) {
 	// per observer thread: the sequence of its reads of one bar is in program order
 	type key struct{ client, bar int }
 	last := map[key]caState{}
+	waited := map[key]bool{} // this client's Bar.Wait on that bar has returned
 	for _, c := range x.Calls {
+		if strings.HasPrefix(c.Op, "barwait") && c.Res != "skipped" && c.Ret > 0 {
+			var b int
+			fmt.Sscanf(c.Op, "barwait%d", &b)
+			waited[key{c.Client, b}] = true
+			continue
+		}
 		if !strings.HasPrefix(c.Op, "get") || c.Res == "skipped" {
 			continue
 		}
@@ -43,6 +50,9 @@ func c11Oracle(sp *Spec, x *X, res *mcrt.Result) (string, string) {
 		fmt.Sscanf(c.Op, "get%d", &b)
 		cur := parseCA(c.Res)
 		k := key{c.Client, b}
+		if waited[k] && cur.comp == cur.abort {
+			return "terminal-not-exclusive-after-barwait", fmt.Sprintf("bar %d: client %d read %s after its Bar.Wait returned", b, c.Client, c.Res)
+		}
 		if c.Client == 0 && c.Inv >= x.WaitStep {
 			// main's late reads: every earlier read of any thread happened before (Wait joined nothing, but
 			// all clients were joined before the late calls), so compare with all of them
@@ -163,7 +173,7 @@ func init() {
 		Property: "C11",
 		Rule: "all histories up to the depth over {IncrBy 1, IncrBy total, SetCurrent total, SetTotal(-1,true), EnableTriggerComplete, Abort(false), Abort(true)} from totals {0,2}, followed by ctx cancel so every bar ends, in non-refreshing and auto-refresh containers; " +
 			"an observer thread reads (Completed, Aborted) twice, waits for the bar and reads again, main reads twice after Wait; every schedule within the deviation bound places the reads, render cycles and the bar goroutine's exit anywhere. " +
-			"Oracle: never both; Completed sticky with Aborted false; Aborted sticky with Completed false; after Wait exactly one; the same on the Statistics seen by the filler in successive frames.",
+			"Oracle: never both; Completed sticky with Aborted false; Aborted sticky with Completed false; after Bar.Wait (same thread) and after Progress.Wait exactly one; the same on the Statistics seen by the filler in successive frames.",
 		Items: func(tier string) []Item {
 			var items []Item
 			depth, bound := 2, 1
